@@ -220,6 +220,17 @@ func (e *Env) eval(x Expr) Val {
 		if p, ok := c.W.pures[x.Name]; ok && len(p.Params) == 0 {
 			return e.eval(p.Body)
 		}
+		if e.pkg != nil {
+			// package-level variable of the function's own package
+			if gv, ok := e.pkg.Scope().Lookup(x.Name).(*types.Var); ok {
+				ls := c.leaves(gv.Type())
+				v := Val{T: gv.Type(), L: make([]string, len(ls))}
+				for i, l := range ls {
+					v.L[i] = c.comp(e.st, "GL|"+e.pkg.Name()+"."+gv.Name()+l.Path, l.Sort)
+				}
+				return v
+			}
+		}
 		c.fail("spec: unknown identifier %q", x.Name)
 	case *ESel:
 		if id, ok := x.X.(*EIdent); ok {
@@ -227,6 +238,17 @@ func (e *Env) eval(x Expr) Val {
 				if _, isGhost := c.W.ghosts[id.Name]; !isGhost {
 					if k := c.W.lookupConst(e.pkg, id.Name, x.Name); k != nil {
 						return e.constToVal(k)
+					}
+					// package-level variable of an imported package
+					for _, p := range c.W.pkgsNamed(e.pkg, id.Name) {
+						if gv, ok := p.Scope().Lookup(x.Name).(*types.Var); ok {
+							ls := c.leaves(gv.Type())
+							v := Val{T: gv.Type(), L: make([]string, len(ls))}
+							for i, l := range ls {
+								v.L[i] = c.comp(e.st, "GL|"+p.Name()+"."+gv.Name()+l.Path, l.Sort)
+							}
+							return v
+						}
 					}
 					c.fail("spec: unknown qualified name %s.%s", id.Name, x.Name)
 				}
